@@ -1,6 +1,7 @@
 import Driver.Proto
 import XsdataModel.Wsdl.Mapper
 import XsdataModel.Wsdl.Client
+import XsdataModel.Wsdl.SchemaForms
 import XsdataModel.Proofs.WsdlTotal
 open Lean Proto Py Xs.Wsdl
 
@@ -181,6 +182,18 @@ def run (op : String) (a : Json) : Option (Except String Json) :=
       let r := send cfg (fun id => ws!"R(" ++ id ++ ws!")") req h (← strF a "response")
       let evs := jList jEvent r.events
       pure <| if r.ok then ok (jObj [("events", evs)]) else jObj [("err", "ClientValueError"), ("events", evs)]
+  | "schema.forms" => some do
+      let docs ← (← getArr a "schemas").mapM (fun j => do
+        let attrs ← dictOf (field j "attrs")
+        let els ← (← getArr j "elements").mapM optStr
+        let ats ← (← getArr j "attributes").mapM optStr
+        pure (⟨attrs, els, ats⟩ : SchemaDoc))
+      let jf : Option (Option Str) → Json := fun o => match o with
+        | none => Json.str "ValueError"
+        | some f => jObj [("form", jOptStr f)]
+      pure <| ok (jList (fun (o : SchemaOut) => jObj [("element_form", jOptStr o.state.elementForm),
+        ("attribute_form", jOptStr o.state.attributeForm), ("default_attributes", jOptStr o.state.defaultAttributes),
+        ("elements", jList jf o.elements), ("attributes", jList jf o.attributes)]) (readSchemas SchemaState.init docs))
   | "transport.handle" => some do
       let s ← getNat a "status"
       pure <| if handleResponse s then ok (Json.str "body") else err "HTTPError"
